@@ -18,6 +18,7 @@ NMTOOLS_VERIF hooks (event 1 = bounded container asked to hold more than its cap
 
 To add another property to the replay part append one entry to `REPLAY` (module name, harness filter, sampling).
 """
+import re
 import importlib, itertools, os, random
 import numpy as np
 import runner
@@ -40,8 +41,11 @@ REPLAY = [
     dict(mod='c07', take={'quick': ('h_c07q_0',), 'thorough': ('h_c07t_0', 'h_c07t_1', 'h_c07t_2')}, stride={'quick': 1, 'thorough': 1}),
     dict(mod='c08', take={'quick': ('h_c08', 'h_c08c', 'h_c08n', 'h_c08r'), 'thorough': ('h_c08', 'h_c08c', 'h_c08n', 'h_c08r')},
          stride={'quick': 2, 'thorough': 4}),
-    # C05 (slice), C12 (SIMD), C16 (linear algebra), C17 (NN): append here once their modules are merged, e.g.
-    # dict(mod='c05', take={'quick': None, 'thorough': None}, stride={'quick': 1, 'thorough': 1}),
+    # slices (negative steps, clamped / out-of-range bounds, ellipsis, integers) through the view and the eager function:
+    # the index map of a slice is the one place where a wrong clamp reads one position outside the source (seeded C02-1)
+    dict(mod='c05', take={'quick': ('h_c05_p1', 'h_c05_dyn'), 'thorough': ('h_c05_p1', 'h_c05_dyn', 'h_c05_pm23')},
+         stride={'quick': 4, 'thorough': 2}),
+    # C12 (SIMD), C16 (linear algebra), C17 (NN) have sanitizer flavours of their own in their checks
 ]
 # requests whose operands have more elements than this are not replayed: under ASan they cost several ms each and the
 # runner's time-out is per request STREAM (0.002 s per request), so a slow stream would be reported as a crash
@@ -102,6 +106,8 @@ def c02_clean(ans):
         return False
     if ans.startswith('crash:') or ans.startswith('exception:') or ans == 'oob':
         return False
+    if re.search(r'\boob\b', ans):
+        return False                       # a harness that guards its reads itself reports `oob` / `oob@<k>` inside the answer
     if ' events=' in ans:
         return False
     return True
